@@ -32,8 +32,8 @@ def universes(tier, seed):
             u2f.append(("fi", 2, i, sorted(v.inputs)))
     out.append(("U2f", u2f, ALL))
     if tier == "quick":
-        out.append((f"MULTI3[{seed % 4}/4]", [("idx", 3, i) for i in U.shard(U.catalogue("multi"), seed, 4)], ALL[:3]))
-        out.append((f"NFVS3_multi[{seed % 4}/4]", [("idx", 3, i) for i in U.shard(U.catalogue("nfvs_multi"), seed, 4)], ALL[:3]))
+        out.append((f"MULTI3[{seed % 8}/8]", [("idx", 3, i) for i in U.shard(U.catalogue("multi"), seed, 8)], ALL[:3]))
+        out.append((f"NFVS3_multi[{seed % 8}/8]", [("idx", 3, i) for i in U.shard(U.catalogue("nfvs_multi"), seed, 8)], ALL[:3]))
         out.append((f"F3c[{seed % 16}/16]", [("idx", 3, i) for i in U.shard(U.F3_indices(True), seed, 16)], ALL[:2]))
         out.append((f"MAA3[{seed % 512}/512]", [("idx", 3, i) for i in U.shard(U.catalogue("maa"), seed, 512)], [ALL[0], ALL[3]]))
         out.append((f"NFVS3[{seed % 2048}/2048]", [("idx", 3, i) for i in U.shard(U.catalogue("nfvs"), seed, 2048)], [ALL[0], ALL[3]]))
@@ -57,8 +57,8 @@ def plan(tier, seed):
             units.append(("inputs", name, ch, ops))
     K = U.kernel()
     if tier == "quick":
-        hist = [("k", k) for k, n in K.items() if n.n <= 4 and len(n.sd[0]) <= 5] + \
-               [("idx", 2, i) for i in U.U2c_indices() if 2 <= len(U.resolve(("idx", 2, i)).sd[0]) <= 4]
+        hist = [("k", k) for k, n in K.items() if n.n <= 4 and len(n.sd[0]) <= 4] + \
+               [("idx", 2, i) for i in U.U2c_indices() if 2 <= len(U.resolve(("idx", 2, i)).sd[0]) <= 3]
     else:
         hist = [("k", k) for k, n in K.items() if n.n <= 4] + [("idx", 2, i) for i in U.U2c_indices()]
     d = 1 if tier == "quick" else 2
